@@ -115,7 +115,7 @@ Theorem C01_mutable_rejected_call :
     lookup_call class_table w o mn = Some (c, m) -> mret m = RSelf ->
     fired_ok false (crecopy c) (meffs m) chs = true ->
     exec_call class_table (fun _ _ k => false && mcopies k) w o mn args chs [] = Some (w', r) -> w' = w /\ r = o.
-Proof. intros w o mn args chs w' r c m LC MR Q H. eapply unfired_in_place_noop; eauto. Qed.
+Proof. intros w o mn args chs w' r c m LC MR Q H. exact (unfired_in_place_noop _ _ _ _ _ _ _ _ _ _ _ LC eq_refl MR Q H). Qed.
 Print Assumptions C01_mutable_rejected_call.
 
 Definition mutable_chain : list call :=
